@@ -68,8 +68,9 @@ TrPeerFin  == IsEvent("PeerFin") /\ PeerFin
 TrPeerReset == IsEvent("PeerReset") /\ ~peerFin /\ peerFin' = TRUE /\ transit' = 0 /\ rx' = 0 /\ out' = NoOut
                /\ UNCHANGED <<isReq, st, sock, stream, raw, nid, evq, slot, uq, gen, artim, dec, user, ended>>
 TrUserPut  == IsEvent("UserPut") /\ UserPut(Ev.item)
-TrTick     == IsEvent("Tick") /\ (IF artim = "run" THEN Tick ELSE (UNCHANGED vars))
-TrTock     == IsEvent("Tock") /\ UNCHANGED vars      \* time advances without reaching the ARTIM limit
+Idle       == out' = NoOut /\ UNCHANGED <<isReq, st, sock, stream, transit, rx, raw, peerFin, nid, evq, slot, uq, gen, artim, dec, user, ended>>
+TrTick     == IsEvent("Tick") /\ (IF artim = "run" THEN Tick ELSE Idle)
+TrTock     == IsEvent("Tock") /\ Idle      \* time advances without reaching the ARTIM limit
 
 TraceNext ==
   /\ (TrIter \/ TrPeerSend \/ TrArrive \/ TrPeerFin \/ TrPeerReset \/ TrUserPut \/ TrTick \/ TrTock)
